@@ -358,6 +358,12 @@ pub struct World {
     pub trace: Option<Vec<String>>,
     pub buf: Vec<u8>,
     pub pair_cfg: BTreeMap<u64, TcfgP>,
+    /// raw frames (space, bytes) queued through the injection hook on every connection an
+    /// endpoint accepts, before its first transmit (hostile-server experiments)
+    pub on_accept_inject: BTreeMap<usize, Vec<(usize, Vec<u8>)>>,
+    /// do not advance the clock by more than this in one step (an event further away counts as
+    /// "nothing can happen"); lets hostile-peer checks ignore timers armed absurdly far ahead
+    pub max_jump_ns: u64,
     polled_pending: BTreeSet<(usize, usize)>,
     pending_wake: bool,
 }
@@ -467,6 +473,8 @@ impl World {
             trace: None,
             buf: Vec::with_capacity(65536),
             pair_cfg: BTreeMap::new(),
+            on_accept_inject: BTreeMap::new(),
+            max_jump_ns: u64::MAX,
             polled_pending: BTreeSet::new(),
             pending_wake: false,
         }
@@ -483,7 +491,7 @@ impl World {
     }
 
     pub fn rel(&self, t: Instant) -> u64 {
-        t.saturating_duration_since(self.t0).as_nanos() as u64
+        t.saturating_duration_since(self.t0).as_nanos().min(u64::MAX as u128 / 2) as u64
     }
 
     fn pair_cid(pair: u64) -> ConnectionId {
@@ -682,7 +690,18 @@ impl World {
             d.origin = None;
             d.opair = None;
             d.at = self.now + self.netcfg.latency_ns + self.rng_inject.below(50_000_000);
-            match self.rng_inject.below(5) {
+            match self.rng_inject.below(6) {
+                5 => {
+                    // long-header packet type changed (Initial / 0-RTT / Handshake / Retry), or
+                    // the header form flipped
+                    if d.data[0] & 0x80 != 0 {
+                        let ty = self.rng_inject.below(3) as u8 + 1;
+                        d.data[0] = (d.data[0] & 0xcf) | ((((d.data[0] >> 4) & 3) + ty) & 3) << 4;
+                    } else {
+                        d.data[0] ^= 0x80;
+                    }
+                    self.net.fired.inc("forge_type");
+                }
                 0 => {
                     let flips = 1 + self.rng_inject.below(8);
                     for _ in 0..flips {
@@ -924,6 +943,11 @@ impl World {
                 app.dgram_send_buf = Some(spec.tcfg.dgram_send_buf);
                 app.record_history = self.record_history_default;
                 app.start(&mut c, &mut self.led);
+                if let Some(l) = self.on_accept_inject.get(&ei) {
+                    for (space, bytes) in l {
+                        c.verif_inject_frames(*space, bytes.clone());
+                    }
+                }
                 self.mon.on_conn_created(ei, ch.0, pair, Side::Server, remote);
                 self.mon.note_created(ei, ch.0, &c, self.now);
                 if let Some(t) = self.pair_cfg.get(&pair) {
@@ -1416,6 +1440,7 @@ impl World {
         }
         match next {
             None => false,
+            Some(t) if t.saturating_sub(self.now) > self.max_jump_ns => false,
             Some(t) => {
                 self.now = self.now.max(t);
                 true
